@@ -32,6 +32,15 @@ CLAIMED = {
              "Interpolated values are not decided.",
         technique="abstract interpretation over ast: affine-form domain with path conditions and inequality prover, symbolic matrix product, frame and unit typing, who-may-catch rule",
         ref="5 C02"),
+    "C03": dict(
+        text="Row-order provenance rules over every place where tasks, per-molecule arguments and results are paired (task-list "
+             "construction of each loader kind, zip with var_kwarg rows, enumerate write-back, group zip), same-source rules for the "
+             "registered image, a one-shot-iterable rule for LoaderGroup constructor sites, an aliasing-generator consumer rule, an "
+             "effect analysis (stores/mutations closed over the call graph with fresh/alias tracking) proving derived loaders write nothing "
+             "reachable from their source, maintain_order at every group_by, and a CFG must-pass-through guard before the image-id store. "
+             "These are facts about code shape that hold for every molecule ordering and operation sequence; polars itself is trusted.",
+        technique="order-provenance and same-source dataflow rules on ast, effect analysis over the resolved call graph, CFG must-pass-through",
+        ref="5 C03"),
 }
 
 NOT_APPLICABLE = {
